@@ -214,6 +214,19 @@ def pick_options(L, rng, workdirs, args, index, allowed=None):
     return opts, stdin, env_extra, optclass
 
 
+def trash_names(nm):
+    """names trash-put may pick for an entry called nm: nm, nm_1, and - when
+    nm + '.trashinfo' exceeds NAME_MAX - the shortened forms"""
+    out = [nm, nm + '_1']
+    if len((nm + '.trashinfo').encode('utf-8', 'surrogateescape')) > 255:
+        for suf in ('_1', '_2'):
+            cut = len(nm) - len(suf + '.trashinfo')
+            if cut > 0:
+                out.append(nm[:cut] + suf)
+    return [n for n in out
+            if len((n + '.trashinfo').encode('utf-8', 'surrogateescape')) <= 255]
+
+
 def add_stale(L, rng, args, index, p=0.3, extra_dirs=()):
     """stale content carrying an argument's name in the trash dirs that may be
     chosen: payloads WITHOUT info (file, empty dir, tree) and infos without
@@ -231,11 +244,14 @@ def add_stale(L, rng, args, index, p=0.3, extra_dirs=()):
             cands.append(L.vol_path(v, '.Trash/%d' % L.uid))
     for a in args:
         nm = os.path.basename(a['spelling'].rstrip('/')) or 'x'
-        if not gen.is_valid_utf8(nm) or nm in ('.', '..') or \
-                len(nm.encode()) > 240 or '/' in nm:
+        if not gen.is_valid_utf8(nm) or nm in ('.', '..') or '/' in nm:
+            continue
+        names = trash_names(nm)
+        if not names:
             continue
         have = set(nd['p'] for nd in L.nodes)
         for td in cands:
+            nm = rng.choice(names)
             if rng.random() < 0.6 and (td + '/files/' + nm) not in have \
                     and not any(h.startswith(td + '/files/' + nm + '/')
                                 for h in have):
@@ -244,6 +260,15 @@ def add_stale(L, rng, args, index, p=0.3, extra_dirs=()):
                         (td + '/info/' + nm + '.trashinfo') not in have:
                     L.add({'p': td + '/info/' + nm + '.trashinfo', 't': 'f',
                            'c': world.trashinfo_text('stale/info', '2002-02-02T02:02:02')})
+                    continue
+                if rng.random() < 0.3 and \
+                        (td + '/info/' + nm + '.trashinfo') not in have:
+                    # a COMPLETE old entry whose payload is a dangling
+                    # symlink: os.path.exists() says the name is free
+                    L.add({'p': td + '/info/' + nm + '.trashinfo', 't': 'f',
+                           'c': world.trashinfo_text('old/dangling', '2002-02-02T02:02:02')})
+                    L.add({'p': td + '/files/' + nm, 't': 'l',
+                           'to': 'nowhere-%d' % index})
                     continue
                 kind = rng.choice(['file', 'dir_empty', 'tree'])
                 for nd in gen.entry_nodes(rng, td + '/files/' + nm, kind,
